@@ -16,6 +16,60 @@ NOT_DECIDED = ["plugins that influence each other through global state"]
 ASSUMPTIONS = ["range-for iterates a container front to back"]
 
 
+def engine_evaluation_order(ctx):
+    """Engine::prerun / Engine::runOnce visit the base rulesets in configuration order and, for each, all its drop-ins front (newest) to
+    back before the base itself.  Shared by C02 (tick structure) and C13 (LIFO evaluation of drop-ins).  Loops may be range-for, iterator
+    or index loops; which ruleset a call runs is read off the call's provenance."""
+    P = ctx.prog
+    for q, callee in (("Oomd::Engine::Engine::prerun", "Ruleset::prerun"),
+                      ("Oomd::Engine::Engine::runOnce", "Ruleset::runOnce")):
+        f = ctx.fn1(q)
+        outer = loop_over(f, "rulesets_")
+        inner = loop_over(f, "dropins")
+        if len(outer) != 1 or len(inner) != 1:
+            ctx.violation(short(f) + ":loops", "anchor", f.loc(), "expected loops over rulesets_ and dropins")
+            continue
+        O, I = outer[0], inner[0]
+        wo, wi = loop_walk(f, O), loop_walk(f, I)
+        fwd = wo is not None and wi is not None and wo["dir"] == "forward" and wi["dir"] == "forward" and wo["container"] == "this->rulesets_" and \
+            re.match(wo["elem"], wi["container"].lstrip("*(")) is not None and re.search(r"(\.|->)dropins\)?$", wi["container"]) is not None
+        ctx.check(fwd, short(f) + ":forward", "loop-shape",
+                  f.loc(O["stmt"]), "rulesets in configuration order, each one's drop-ins front to back",
+                  "iteration is not a forward traversal of rulesets_ and of the current base's dropins")
+        no_early_exit(ctx, f, O, short(f) + ":no-early-exit:rulesets_", "rulesets_")
+        no_early_exit(ctx, f, I, short(f) + ":no-early-exit:dropins", "dropins")
+        calls = f.calls(callee)
+        # which ruleset a call runs is read off its provenance, not off variable names: the element of rulesets_ (base) or the element of
+        # that element's dropins (drop-in), whether the loops are range-for, iterator or index loops
+        Xf = Expander(P, f)
+        prov = {i: Xf(f.nodes[i].get("recv", -1)).replace("->", ".").rstrip(".") for i in calls}
+        BASE_P = re.compile(r"^(elem\(this\.rulesets_\)|this\.rulesets_\[[^\]]*\])\.ruleset$")
+        DROP_P = re.compile(r"^(elem\((elem\(this\.rulesets_\)|this\.rulesets_\[[^\]]*\])\.dropins\)|(elem\(this\.rulesets_\)|this\.rulesets_\[[^\]]*\])\.dropins\[[^\]]*\])\.ruleset$")
+        base = [i for i in calls if BASE_P.match(prov[i])]
+        drop = [i for i in calls if DROP_P.match(prov[i])]
+        for i in calls:
+            if i not in base and i not in drop:
+                ctx.violation(short(f) + ":runs-configured-rulesets", "provenance", f.loc(i), "%s is called on %s, which is neither a base ruleset nor one of its drop-ins" % (callee, prov[i]))
+        ctx.count("engine_calls", len(calls))
+        per_iter_once(ctx, f, O, base, short(f) + ":base-every-iteration", "the base ruleset's " + callee)
+        # drop-in call once per inner iteration when the pointer is set
+        fi = iter_flow(ctx, f, I, {d: [("set", "D")] for d in drop})
+        for d in drop:
+            g = [(k, p) for k, p in fi.guards(d) if not is_loop_control_fact(k)]
+            ptr = re.sub(r"(->|\.)$", "", f.text(f.nodes[d].get("recv", -1)))
+            ctx.check(all(k == ptr and p is True for k, p in g) and not fi.may(d, "D"),
+                      short(f) + ":dropin-unconditional", "guarded_by", f.loc(d),
+                      "each drop-in runs once, conditioned only on being non-null",
+                      "drop-in call is conditioned on %s" % g)
+        # inner loop completes before the base call in each outer iteration
+        rng = loop_entry_node(f, I)
+        fo = iter_flow(ctx, f, O, {rng: [("set", "dropins-visited")]} if rng is not None else {})
+        for b_ in base:
+            ctx.check(fo.must(b_, "dropins-visited"), short(f) + ":dropins-before-base", "must_precede", f.loc(b_),
+                      "a base ruleset runs after all of its drop-ins",
+                      "the base ruleset can run before its drop-ins")
+
+
 def run(ctx):
     # locals / parameters the rules below refer to by name (a rename makes the analysis 'broken', never a violation)
     ctx.anchor(ctx.fn1('Oomd::Engine::Ruleset::runOnceImpl'), 'run_actions', 'dg', 'context')
@@ -32,7 +86,7 @@ def run(ctx):
         ctx.broken("check-loop", "anchor", chk.loc(), "expected one loop over detectors_ in check, found %d" % len(ls))
     else:
         L = ls[0]
-        runs = [i for i in virtual_run_calls(chk) if chk.pos_of(i)[0] in L["body"]]
+        runs = [i for i in virtual_run_calls(chk, prog=P) if chk.pos_of(i)[0] in L["body"]]
         ctx.count("virtual_run_sites", len(runs))
         per_iter_once(ctx, chk, L, runs, "check:every-detector-runs", "the detector's run()")
         no_early_exit(ctx, chk, L, "check:no-early-exit", "detectors_")
@@ -133,7 +187,7 @@ def run(ctx):
     if len(ls) != 1:
         ctx.broken("dgprerun-loop", "anchor", dpre.loc(), "expected one loop over detectors_ in DetectorGroup::prerun")
     else:
-        pr = [i for i in virtual_run_calls(dpre, "prerun")]
+        pr = [i for i in virtual_run_calls(dpre, "prerun", prog=P)]
         per_iter_once(ctx, dpre, ls[0], pr, "DetectorGroup::prerun:every-detector", "the detector's prerun()")
         no_early_exit(ctx, dpre, ls[0], "DetectorGroup::prerun:no-early-exit", "detectors_")
         ctx.count("virtual_prerun_sites", len(pr))
@@ -267,7 +321,7 @@ def run(ctx):
     # ------------------------------------------------ Ruleset::run_action_chain
     chain = ctx.fn1("Oomd::Engine::Ruleset::run_action_chain")
     ls = loops(chain)
-    runs = virtual_run_calls(chain)
+    runs = virtual_run_calls(chain, prog=P)
     ctx.count("virtual_run_sites", len(runs))
     if len(ls) != 1 or len(runs) != 1:
         ctx.violation("chain:single-loop", "anchor", chain.loc(),
@@ -327,43 +381,7 @@ def run(ctx):
                       "ASYNC_PAUSED saves the chain state and returns",
                       "ASYNC_PAUSED does not save-and-return on every path")
 
-    # ------------------------------------------------ Engine::prerun / runOnce
-    for q, callee in (("Oomd::Engine::Engine::prerun", "Ruleset::prerun"),
-                      ("Oomd::Engine::Engine::runOnce", "Ruleset::runOnce")):
-        f = ctx.fn1(q)
-        outer = loop_over(f, "rulesets_")
-        inner = loop_over(f, "dropins")
-        if len(outer) != 1 or len(inner) != 1:
-            ctx.violation(short(f) + ":loops", "anchor", f.loc(), "expected loops over rulesets_ and dropins")
-            continue
-        O, I = outer[0], inner[0]
-        ctx.check(forward_iteration(f, O) and forward_iteration(f, I), short(f) + ":forward", "loop-shape",
-                  f.loc(O["stmt"]), "rulesets in configuration order, drop-ins front to back",
-                  "iteration is not a forward traversal")
-        no_early_exit(ctx, f, O, short(f) + ":no-early-exit:rulesets_", "rulesets_")
-        no_early_exit(ctx, f, I, short(f) + ":no-early-exit:dropins", "dropins")
-        calls = f.calls(callee)
-        base = [i for i in calls if "base.ruleset" in f.text(f.nodes[i].get("recv", -1))]
-        drop = [i for i in calls if i not in base]
-        ctx.count("engine_calls", len(calls))
-        per_iter_once(ctx, f, O, base, short(f) + ":base-every-iteration", "the base ruleset's " + callee)
-        per_iter_once(ctx, f, I, drop, short(f) + ":dropin-every-iteration", "the drop-in's " + callee) \
-            if False else None
-        # drop-in call once per inner iteration when the pointer is set
-        fi = iter_flow(ctx, f, I, {d: [("set", "D")] for d in drop})
-        for d in drop:
-            g = [(k, p) for k, p in fi.guards(d) if "__begin" not in k and "__end" not in k]
-            ctx.check(all("dropin.ruleset" in k and p is True for k, p in g) and not fi.may(d, "D"),
-                      short(f) + ":dropin-unconditional", "guarded_by", f.loc(d),
-                      "each drop-in runs once, conditioned only on being non-null",
-                      "drop-in call is conditioned on %s" % g)
-        # inner loop completes before the base call in each outer iteration
-        rng = f.nodes[I["stmt"]].get("range", -1)
-        fo = iter_flow(ctx, f, O, {rng: [("set", "dropins-visited")]} if rng >= 0 else {})
-        for b_ in base:
-            ctx.check(fo.must(b_, "dropins-visited"), short(f) + ":dropins-before-base", "must_precede", f.loc(b_),
-                      "a base ruleset runs after all of its drop-ins",
-                      "the base ruleset can run before its drop-ins")
+    engine_evaluation_order(ctx)
     ctx.floor("engine_calls", 4, "Ruleset::prerun/runOnce calls in Engine")
     ctx.floor("virtual_run_sites", 2, "virtual BasePlugin::run call sites")
     ctx.floor("virtual_prerun_sites", 2, "virtual BasePlugin::prerun call sites")
@@ -371,7 +389,7 @@ def run(ctx):
     for f in P.fns.values():
         if f.pq in ("Oomd::Engine::DetectorGroup::check", "Oomd::Engine::Ruleset::run_action_chain"):
             continue
-        for i in virtual_run_calls(f):
+        for i in virtual_run_calls(f, prog=P):
             ctx.violation("plugin-run-outside-engine:" + short(f), "who-may-call", f.loc(i),
                           "BasePlugin::run invoked outside DetectorGroup::check / run_action_chain")
     ctx.ok("plugin-run-sites", "who-may-call", "-", "plugins are run only by check and run_action_chain")
